@@ -36,6 +36,7 @@ import (
 	"sync"
 	"testing"
 
+	"k8s.io/apimachinery/pkg/apis/meta/v1/unstructured"
 	"pgregory.net/rapid"
 	"sigs.k8s.io/controller-runtime/pkg/client"
 
@@ -345,4 +346,177 @@ func TestVerifC16PinnedStaleNotFound(t *testing.T) {
 			})
 		}
 	}
+}
+
+// ---------------------------------------------------------------------------
+// an object of the package vanishes (or is replaced) between two API calls
+
+type vanishScenario struct {
+	scenario
+	Victim   int      // index of an existing object that could be taken over
+	Recreate preState // pAbsent: just deleted; otherwise re-created by somebody else, owned like this
+}
+
+func genVanish(t *rapid.T) vanishScenario {
+	sc := genScenario(t)
+	// Both roles matter: an inactive revision must not re-create what vanished.
+	sc.Control = rapid.Bool().Draw(t, "vanish.active")
+	j := rapid.IntRange(0, len(sc.Objs)-1).Draw(t, "vanish.which")
+	sc.Pre[j].State = rapid.SampledFrom([]preState{pUncontrolled, pSelfControlled, pSelfControlled, pSelfOwned, pPrevReleased, pPrevReleased, pForeignOwned}).Draw(t, "vanish.pre")
+	if sc.Reject == j {
+		sc.Reject = -1
+	}
+	sc.Limit = 1
+	return vanishScenario{scenario: sc, Victim: j,
+		Recreate: rapid.SampledFrom([]preState{pAbsent, pAbsent, pAbsent, pForeignControlled, pUncontrolled}).Draw(t, "vanish.recreate")}
+}
+
+// What is judged when an object vanishes under the establisher:
+//   - always, at every request (monitors): an inactive revision issues no create
+//     and is never written as controller; every written object keeps the package
+//     as plain owner;
+//   - strict all-or-nothing if the object comes back under another controller
+//     before the establisher validated it (it then cannot be taken over);
+//   - one-directional: if Establish returns nil, an active revision controls every
+//     object of the package, an inactive one controls nothing and created nothing;
+//   - if it returns an error (the unchanged code returns the NotFound / conflict of
+//     the write that lost the race) nothing more is demanded: like a transient
+//     fault in the establish phase, objects written before may exist.
+func runVanishScenario(vs vanishScenario, rec *verifkit.Recorder, fail func(string, ...any)) {
+	sc := vs.scenario
+	w, m := sc.setup(fail)
+	must := m.mustFail()
+	self, pkg := w.revs[revName], w.pkgs[pkgName]
+	snap := w.sim.Snapshot()
+	probe := w.sim.NewRun(estActor, nil)
+	w.establish(probe, revName, sc.Objs, sc.Control, 1, must)
+	w.sim.TakeViolations()
+	n := probe.N
+	j := vs.Victim
+	kj := m.Keys[j]
+	refusing := sc.Control && vs.Recreate == pForeignControlled
+	tr, fa := true, false
+	gk := objGK[sc.Objs[j].Kind]
+	for at := 0; at < n; at++ {
+		rec.Eval()
+		w.sim.Restore(snap)
+		when := ""
+		tc := &tickClient{Client: w.sim.NewRun(estActor, nil).Client(), at: at}
+		tc.fire = func() {
+			w.sim.With(func(*verifsim.View) {
+				switch {
+				case w.cur != nil && w.cur.RealKeys[kj]:
+					when = "after-real-write"
+				case w.cur != nil && w.cur.DryKeys[kj]:
+					when = "between-dry-run-and-real-write"
+				default:
+					when = "before-dry-run"
+				}
+			})
+			u := &unstructured.Unstructured{}
+			u.SetAPIVersion(gk.Group + "/v1")
+			u.SetKind(gk.Kind)
+			u.SetName(kj.Name)
+			if err := w.sim.Client("interloper").Delete(context.Background(), u); err != nil {
+				fail("harness: interloper cannot delete %s: %v", kj, err)
+			}
+			if vs.Recreate == pAbsent {
+				return
+			}
+			var refs []map[string]any
+			if vs.Recreate == pForeignControlled {
+				refs = []map[string]any{w.revs[foreignRev].ref(&tr), w.pkgs[foreignPkg].ref(&fa)}
+			}
+			stored := sc.Objs[j]
+			stored.Variant = stored.Variant%3 + 1
+			if err := w.tryPutObject("interloper", stored, m.Names[j], refs); err != nil {
+				fail("harness: interloper cannot re-create %s: %v", kj, err)
+			}
+			if refusing && when == "before-dry-run" {
+				w.sim.With(func(*verifsim.View) {
+					if w.cur != nil && w.cur.MustFail == "" {
+						w.cur.MustFail = fmt.Sprintf("%s was replaced by an object under another controller before the establisher validated it", kj)
+					}
+				})
+			}
+		}
+		_, err, cc := w.establishWith(tc, revName, sc.Objs, sc.Control, 1, must)
+		if !tc.fired {
+			continue
+		}
+		what := "deleted"
+		if vs.Recreate != pAbsent {
+			what = "replaced by a " + vs.Recreate.String() + " one"
+		}
+		where := fmt.Sprintf("Establish of %s while %s is %s before the establisher's call %d (%s, %s)", verifkit.JSON(sc), kj, what, at, at2(probe.Calls, at), when)
+		w.violations(where)
+		rec.Labelf("vanish:%s control=%v", when, sc.Control)
+		rec.Labelf("vanish:recreate=%s", vs.Recreate)
+		if when == "between-dry-run-and-real-write" {
+			rec.NonTrivial(fmt.Sprintf("vanish|%s|%d", verifkit.JSON(vs), at), func() any { return map[string]any{"scenario": vs, "before_call": at} })
+		}
+		switch {
+		case cc.MustFail != "":
+			rec.Label("vanish:outcome-must-fail")
+			if err == nil {
+				fail("ALL-OR-NOTHING: %s returned nil although %s", where, cc.MustFail)
+			}
+			if cc.RealWrite > 0 {
+				fail("ALL-OR-NOTHING: %s: %s, yet %d real requests were issued", where, cc.MustFail, cc.RealWrite)
+			}
+		case err == nil:
+			rec.Label("vanish:outcome-ok")
+			exist, owned := map[int]bool{}, map[int]bool{}
+			for i := range m.Keys {
+				exist[i], owned[i] = m.Existing[i], m.Owned[i]
+			}
+			// The original is gone; what is there now (if anything) is somebody else's.
+			exist[j], owned[j] = vs.Recreate != pAbsent, false
+			if when == "after-real-write" && vs.Recreate != pAbsent && sc.Control {
+				// The establisher had finished with the object before it was replaced.
+				rec.Label("vanish:replaced-after-establish")
+				break
+			}
+			if when == "after-real-write" && vs.Recreate == pAbsent && sc.Control {
+				rec.Label("vanish:deleted-after-establish")
+				break
+			}
+			w.checkEstablished(where, self, pkg, sc.Control, m.Keys, exist, owned)
+		default:
+			rec.Label("vanish:outcome-error")
+		}
+		if !sc.Control && cc.Creates > 0 {
+			fail("INACTIVE-ROLE: %s issued %d creates", where, cc.Creates)
+		}
+		if !sc.Control {
+			for _, k := range m.Keys {
+				if o := w.sim.Get(k); o != nil && verifsim.ControllerUID(o) == self.UID && !(k != kj && ownedController(sc, m, k)) {
+					fail("INACTIVE-ROLE: after %s the inactive revision controls %s: %v", where, k, verifsim.OwnerRefs(o))
+				}
+			}
+		}
+	}
+}
+
+// ownedController: did the revision under test control this object before the call
+// (an inactive revision's failed call may leave that as it was)?
+func ownedController(sc scenario, m model, k verifsim.Key) bool {
+	for i, mk := range m.Keys {
+		if mk == k {
+			return sc.Pre[i].State == pSelfControlled
+		}
+	}
+	return false
+}
+
+func TestVerifC16Vanish(t *testing.T) {
+	rec := verifkit.New(t, "C16", "scenario as for Establish with one existing, takeable object of the package being deleted - or deleted and re-created by somebody else (under another package's controller, or owned by nobody) - before the establisher's API call k, for every k, for active and inactive revisions; non-trivial = the object vanishes between its dry-run and its real write")
+	rapid.Check(t, func(t *rapid.T) {
+		rec.Eval()
+		vs := genVanish(t)
+		if excludeKnown(&vs.scenario) {
+			rec.Excluded()
+		}
+		runVanishScenario(vs, rec, func(f string, a ...any) { t.Helper(); t.Fatalf(f, a...) })
+	})
 }
